@@ -388,8 +388,8 @@ def finishClass (ci : ClassInfo) (kwargs : List (S × PyVal)) (catchAll : List (
   let provided := kwargs.map (·.1)
   let missingInit := (ci.fields.filter (fun f => f.init && f.dflt.isNone && !provided.contains f.name))
   if !missingInit.isEmpty then
-    -- MissingFields lists every dataclass field without default that was not provided
-    .error (.missingFields ci.name ((ci.fields.filter (fun f => f.dflt.isNone && !provided.contains f.name)).map (·.name)))
+    -- MissingFields lists every constructor field without default that was not provided (after fix 88cf12a)
+    .error (.missingFields ci.name (missingInit.map (·.name)))
   else
     let rec build (fs : List FieldInfo) : Except LErr (List (S × PyVal)) :=
       match fs with
@@ -398,7 +398,10 @@ def finishClass (ci : ClassInfo) (kwargs : List (S × PyVal)) (catchAll : List (
         match (if f.init then kwargs.reverse.find? (fun p => p.1 == f.name) else none), f.dflt with
         | some p, _ => do let rest ← build r; pure ((f.name, p.2) :: rest)
         | none, some d => do let rest ← build r; pure ((f.name, d.toPy) :: rest)
-        | none, none => .error (.unsupported "init=False field without default".toList)
+        | none, none =>
+          match f.postInit with
+          | some l => do let rest ← build r; pure ((f.name, l.toPy) :: rest)
+          | none => .error (.unsupported "init=False field without default".toList)
     do
       let fs ← build ci.fields
       pure (.inst ci fs)
